@@ -68,7 +68,10 @@ class Fixture:
         alnum = "abcdefghijklmnopqrstuvwxyzABCDEFGHIJKLMNOPQRSTUVWXYZ0123456789"
         lines = []
         for i in range(1, N_LINES):
-            lines.append(('{"i":%d,"s":"%s"}\n' % (i, "ä€"[: i % 3] + "x" * (i % 11))).encode("utf-8"))
+            # multi-byte characters in the first lines and in the lines before every table entry (a table that counted
+            # characters instead of bytes would be off); nowhere else, so that no chunked writer cuts inside one
+            mb = "ä€"[: i % 3] if (i <= 20 or 0 < (-i) % 50000 <= 40 or i % 50000 == 0) else ""
+            lines.append(('{"i":%d,"s":"%s"}\n' % (i, mb + "x" * (i % 11))).encode("utf-8"))
         blob = "".join(rnd.choice(alnum) for _ in range(LAST_LINE_BODY))
         lines.append(('{"i":%d,"blob":"%s"}\n' % (N_LINES, blob)).encode("utf-8"))
         self.X = b"".join(lines)
@@ -88,10 +91,11 @@ class Fixture:
             "other": self.other,
         }
         for ln in (50000, 100000):
-            # windows in which a cut would produce a table entry for a partial line: must not be hit by chunked writers
-            lo, hi = self.x_off[ln - 1], self.x_off[ln]
+            # windows in which a cut would produce a table entry for a partial line, or would fall into a multi-byte
+            # character: must not be hit by chunked writers
+            lo, hi = self.x_off[ln - 41], self.x_off[ln]
             if lo // 4096 != (hi - 1) // 4096 or lo % 4096 == 0:
-                raise tlc.MachineryError("fixture: line %d straddles a 4 KiB boundary; change the line pattern" % ln)
+                raise tlc.MachineryError("fixture: the lines before line %d straddle a 4 KiB boundary; change the line pattern" % ln)
         if not self.x_off[49999] > self.mid_size:
             raise tlc.MachineryError("fixture: 'mid' document must have fewer than 50000 lines")
         self.tables = {
@@ -175,7 +179,8 @@ class Fixture:
             "pigz": ('exec "%s" "$@"\n' % real["pigz"]) if real["pigz"] else None,
             # rally calls: pbzip2 -d -k -m10000 -c FILE   /   pzstd -f -d -c FILE
             "pbzip2": ('for a; do f="$a"; done\nexec "%s" -d -k -c "$f"\n' % real["bzip2"]) if real["bzip2"] else None,
-            "pzstd": ('for a; do f="$a"; done\nexec "%s" -q -f -d -c "$f"\n' % real["zstd"]) if real["zstd"] else None,
+            # no -f: with it the zstd binary passes unrecognised input through unchanged, which pzstd does not do
+            "pzstd": ('for a; do f="$a"; done\nexec "%s" -q -d -c "$f"\n' % real["zstd"]) if real["zstd"] else None,
         }
         for name, body in wrappers.items():
             if body:
@@ -602,12 +607,19 @@ class Observer:
         name = getattr(fn, "__name__", "")
         if name not in WATCH:
             return sys.monitoring.DISABLE if name in HOT else None
-        if code.co_filename.endswith("subprocess.py") and name not in ("fork_exec", "posix_spawn"):
-            # the external tool runs concurrently with the parent between fork and wait: do not look (and do not crash)
-            # there, what one would see depends on scheduling
-            return None
         if code.co_filename == __file__:
             return None
+        fr = sys._getframe(1)
+        while fr is not None:
+            co = fr.f_code
+            if co.co_filename.endswith("subprocess.py") and name not in ("fork_exec", "posix_spawn"):
+                # the external tool runs concurrently with the parent between fork and wait: do not look (and do not
+                # crash) there, what one would see depends on scheduling - and a killed parent leaves the tool running
+                return None
+            if co.co_name == "__del__":
+                # calls made by destructors: an exception raised there is swallowed by the interpreter
+                return None
+            fr = fr.f_back
         snap = snapshot(self.fx, self.d, self.fmt, self.tmp_sig)
         if self.events and core(self.events[-1][0]) != core(snap):
             self.changes += 1
